@@ -39,10 +39,20 @@ def group_first_segment(ast):
     return any(s.startswith('x') for s in ast.split(':')[1].split('/'))
 
 
+def group_segment_can_be_empty(ast):
+    from props import globcommon
+    return globcommon.group_segment_can_be_empty(ast)
+
+
+def group_then_wild(ast):
+    from props import globcommon
+    return globcommon.group_then_wild(ast)
+
+
 def classifiers():
     return [
         ('C02-group-segment-empty', lambda m: m['name'] is not None and m['impl'] is True and m['ub'] is False and
-         group_first_segment(m['ast']) and
+         group_segment_can_be_empty(m['ast']) and
          (m['cfg']['mb'] or '//' in m['name'] or m['name'].endswith('/') or n_nonempty(m['name']) < n_spat(m['ast'])
           or any(s in ('g', 'G') for s in m['ast'].split(':')[1].split('/')))),
         ('C02-globstar-div-newline', lambda m: m['name'] is not None and m['impl'] is True and m['ub'] is False and
@@ -130,6 +140,62 @@ def run(ctx):
                                        {'pattern': fp_, 'name': fe_names[k], 'flags': corr.flag_names(ff), 'front_end': how})
                     break
     ctx.counted('front ends of the path matcher agree', nfe, nfe // 3, [{'pattern': 'b/x', 'name': 'a/b/x'}])
+    # a run of separators in the pattern counts as one - however the run is spelled (`//`, an escaped `\/`, mixtures,
+    # also right after `**` and after merged `**/**`) - and a final backslash that escapes nothing is ignored
+    import astgen as AG
+    m_ = __import__('wclib').Model()
+    sp_pps = pps[:: 2 if ctx.quick else 1] + ['r:g/g/l61:t', 'r:g/g/g/l61.s:t', 'R:g/g/l61:T', 'r:l61/g/g/q:t', 'r:G/g/l61:t', 'r:g/G/s:T']
+    outs = m_.run(['pden 0 0 0 1 0 0 %s []' % p_ for p_ in sp_pps])
+    nsp = nsp_nt = nsp_bad = 0
+    for pp, o in zip(sp_pps, outs):
+        ptxt = corr.dec(o.split(' ')[0])
+        vars_ = common.separator_respellings(ptxt, rng)
+        if not vars_ or nsp_bad >= 3:
+            continue
+        al = corr.derived_alphabet(pp, extra='x')[:2]
+        for c_ in ('.', '/'):
+            if c_ not in al:
+                al.append(c_)
+        names = list(AG.names_upto(al, 5))
+        for ff in (Gm.GLOBSTAR, Gm.GLOBSTAR | Gm.DOTGLOB, Gm.GLOBSTAR | Gm.GLOBSTARLONG, 0, Gm.GLOBSTAR | Gm.MATCHBASE):
+            fl_ = ff | Gm.FORCEUNIX | (Gm.EXTGLOB if 'x' in pp else 0)
+            try:
+                base = Gm.compile(ptxt, flags=fl_)
+                want = [base.match(n_) for n_ in names]
+            except Exception:
+                continue
+            nsp_nt += 0 < sum(want) < len(want)
+            for v_ in vars_:
+                nsp += len(names)
+                try:
+                    got = [Gm.compile(v_, flags=fl_).match(n_) for n_ in names]
+                except Exception as e:
+                    ctx.counterexample('compile(%r, %s) raises %s although %r compiles' % (v_, corr.flag_names(fl_), type(e).__name__, ptxt),
+                                       {'pattern': v_, 'flags': corr.flag_names(fl_), 'same_as': ptxt})
+                    break
+                if got != want:
+                    nsp_bad += 1
+                    k = next(i for i in range(len(want)) if got[i] != want[i])
+                    ctx.counterexample('globmatch(%r, %r, %s) = %r but %r with the separators written once = %r (a run of separators in the pattern counts as one)' % (
+                        names[k], v_, corr.flag_names(fl_), got[k], ptxt, want[k]),
+                        {'pattern': v_, 'same_as': ptxt, 'name': names[k], 'flags': corr.flag_names(fl_)})
+                    break
+            if nsp_bad >= 3:
+                break
+    # the spellings that once failed (fixed in f91f5f1 / b077d2f), every run
+    for v_, ptxt in (('a/**/**//b', 'a/**/**/b'), ('**/**//b', '**/**/b'), ('a/\\/b', 'a/b'), ('a\\/\\/b', 'a/b'), ('a/**/\\/b', 'a/**/b'), ('**//**//b', '**/**/b'),
+                     ('a/***/**///b', 'a/***/**/b')):
+        names = list(AG.names_upto(['a', 'b', 'x', '/'], 5))
+        for fl_ in (Gm.GLOBSTAR | Gm.FORCEUNIX, Gm.GLOBSTAR | Gm.GLOBSTARLONG | Gm.FORCEUNIX, Gm.FORCEUNIX):
+            nsp += len(names)
+            a_, b_ = Gm.compile(v_, flags=fl_), Gm.compile(ptxt, flags=fl_)
+            bad_ = [n_ for n_ in names if a_.match(n_) != b_.match(n_)]
+            if bad_:
+                ctx.counterexample('globmatch(%r, %r, %s) = %r but %r with the separators written once = %r (a run of separators in the pattern counts as one)' % (
+                    bad_[0], v_, corr.flag_names(fl_), a_.match(bad_[0]), ptxt, b_.match(bad_[0])),
+                    {'pattern': v_, 'same_as': ptxt, 'name': bad_[0], 'flags': corr.flag_names(fl_)})
+                break
+    ctx.counted('separator runs in the pattern, however spelled, count as one', nsp, nsp_nt, [{'pattern': 'a/\\/**//**//b', 'same_as': 'a/**/**/b'}])
     # NODIR: the exclusion regex accepts exactly directory-looking paths
     import itertools
     names = [''.join(t) for n in range(1, 6) for t in itertools.product('a./', repeat=n)]
